@@ -1,9 +1,235 @@
 /-
-  Helper lemmas for C06 (kvcache.Causal model).
+  Helper lemmas for C06 (kvcache.Causal model): the abstraction to the location-free spec and the
+  pointwise facts the property theorems are assembled from.
 -/
 import OllamaVerif.Model.Causal
 
 namespace OllamaVerif.Causal
 open OllamaVerif.KV
+
+/-- the spec entry a (cell, row) pair stands for; an unowned cell stands for nothing -/
+def entryOf (x : Cell × Row) : Option Entry :=
+  if x.1.seqs = [] then none else some ⟨x.1.seqs, x.1.pos, x.2.id, x.2.shift⟩
+
+/-- **abstraction**: owned cells, in location order, each with the row found at its location -/
+def abs (c : Cache) : Spec := (c.cells.zip c.rows).filterMap entryOf
+
+/-! ### CopyPrefix -/
+
+theorem entryOf_cpCell (src dst : Nat) (len : Int) (x : Cell × Row) :
+    entryOf (cpCell src dst len x.1, x.2) = (entryOf x).bind (cpEntry src dst len) := by
+  obtain ⟨⟨pos, seqs⟩, r⟩ := x
+  by_cases h : seqs = []
+  · subst h; simp [entryOf, cpCell, cpSeqs]
+  · by_cases hc : cpSeqs src dst len pos seqs = [] <;> simp [entryOf, cpCell, cpEntry, h, hc]
+
+/-! ### Remove -/
+
+/-- what `Remove`'s loop does to one cell when it does not bail out -/
+def rmCell (seq : Nat) (b e off : Int) (c : Cell) : Cell :=
+  if seq ∈ c.seqs then
+    if b ≤ c.pos ∧ c.pos < e then dropSeq seq c
+    else if c.pos ≥ e then { c with pos := c.pos + off }
+    else c
+  else c
+
+def refuseCell (seq : Nat) (b e : Int) (c : Cell) : Bool :=
+  decide (seq ∈ c.seqs) && !(decide (b ≤ c.pos ∧ c.pos < e)) && decide (c.pos ≥ e) && sharedOther seq c.seqs
+
+theorem removeCells_flag (seq : Nat) (b e off : Int) (cells : List Cell) :
+    (removeCells seq b e off cells).2 = cells.any (refuseCell seq b e) := by
+  induction cells with
+  | nil => simp [removeCells]
+  | cons c cs ih =>
+    unfold removeCells
+    by_cases h1 : seq ∈ c.seqs
+    · by_cases h2 : b ≤ c.pos ∧ c.pos < e
+      · simp [h1, h2, ih, refuseCell]
+      · by_cases h3 : c.pos ≥ e
+        · by_cases h4 : sharedOther seq c.seqs = true
+          · simp [h1, h2, h3, h4, refuseCell]
+          · simp only [Bool.not_eq_true] at h4
+            simp [h1, h2, h3, h4, ih, refuseCell]
+        · simp [h1, h2, h3, ih, refuseCell]
+    · simp [h1, ih, refuseCell]
+
+theorem removeCells_ok (seq : Nat) (b e off : Int) (cells : List Cell)
+    (h : (removeCells seq b e off cells).2 = false) :
+    (removeCells seq b e off cells).1 = cells.map (rmCell seq b e off) := by
+  induction cells with
+  | nil => simp [removeCells]
+  | cons c cs ih =>
+    unfold removeCells at h ⊢
+    by_cases h1 : seq ∈ c.seqs
+    · by_cases h2 : b ≤ c.pos ∧ c.pos < e
+      · simp only [h1, h2, and_self, if_true] at h ⊢
+        simp [ih h, rmCell, h1, h2]
+      · by_cases h3 : c.pos ≥ e
+        · by_cases h4 : sharedOther seq c.seqs = true
+          · simp [h1, h2, h3, h4] at h
+          · simp only [h1, h2, h3, h4, if_true, if_false] at h ⊢
+            simp [ih h, rmCell, h1, h2, h3]
+        · simp only [h1, h2, h3, if_true, if_false] at h ⊢
+          simp [ih h, rmCell, h1, h2, h3]
+    · simp only [h1, if_false] at h ⊢
+      simp [ih h, rmCell, h1]
+
+/-- cell and row after an accepted `Remove` with shift, as one pointwise function -/
+def rmPair (seq : Nat) (b e off : Int) (doShift : Bool) (x : Cell × Row) : Cell × Row :=
+  let c' := rmCell seq b e off x.1
+  (c', if doShift ∧ seq ∈ c'.seqs ∧ c'.pos ≥ e + off then { x.2 with shift := x.2.shift + off } else x.2)
+
+theorem zip_shiftRows (seq : Nat) (b e off : Int) (cells : List Cell) (rows : List Row) :
+    (cells.map (rmCell seq b e off)).zip (shiftRows seq (e + off) off (cells.map (rmCell seq b e off)) rows)
+      = (cells.zip rows).map (rmPair seq b e off true) := by
+  induction cells generalizing rows with
+  | nil => simp
+  | cons c cs ih =>
+    cases rows with
+    | nil => simp [shiftRows]
+    | cons r rs => simp [shiftRows, ih, rmPair]
+
+theorem zip_noShift (seq : Nat) (b e off : Int) (cells : List Cell) (rows : List Row) :
+    (cells.map (rmCell seq b e off)).zip rows = (cells.zip rows).map (rmPair seq b e off false) := by
+  induction cells generalizing rows with
+  | nil => simp
+  | cons c cs ih =>
+    cases rows with
+    | nil => simp
+    | cons r rs => simp [ih, rmPair]
+
+theorem mem_filter_ne {seq : Nat} {l : List Nat} : seq ∉ l.filter (· ≠ seq) := by
+  simp
+
+/-- pointwise: an accepted `Remove` (with the shift applied) is the spec's `rmEntry` -/
+theorem entryOf_rmPair_shift (seq : Nat) (b e : Int) (he : e ≠ maxInt32) (x : Cell × Row) :
+    entryOf (rmPair seq b e (rmOffset b e) true x) = (entryOf x).bind (rmEntry seq b e) := by
+  obtain ⟨⟨pos, seqs⟩, r⟩ := x
+  have hoff : rmOffset b e = b - e := by simp [rmOffset, he]
+  by_cases h0 : seqs = []
+  · subst h0; simp [entryOf, rmPair, rmCell]
+  · by_cases h1 : seq ∈ seqs
+    · by_cases h2 : b ≤ pos ∧ pos < e
+      · simp [entryOf, rmPair, rmCell, rmEntry, h0, h1, h2, dropSeq]
+      · by_cases h3 : pos ≥ e
+        · have : e + (b - e) ≤ pos + (b - e) := by omega
+          simp [entryOf, rmPair, rmCell, rmEntry, h0, h1, h2, h3, hoff, this]
+        · have h4 : ¬ (e + (b - e) ≤ pos) := by omega
+          simp [entryOf, rmPair, rmCell, rmEntry, h0, h1, h2, h3, hoff, h4]
+    · simp [entryOf, rmPair, rmCell, rmEntry, h0, h1]
+
+/-- pointwise: an accepted `Remove` that performs no data shift is the spec's `rmEntry` as long
+    as no position moves (`off = 0`, the `MaxInt32` case) or no cell of `seq` is left to shift -/
+theorem entryOf_rmPair_noshift_inf (seq : Nat) (b : Int) (x : Cell × Row) :
+    entryOf (rmPair seq b maxInt32 (rmOffset b maxInt32) false x) = (entryOf x).bind (rmEntry seq b maxInt32) := by
+  obtain ⟨⟨pos, seqs⟩, r⟩ := x
+  have hoff : rmOffset b maxInt32 = 0 := by simp [rmOffset]
+  by_cases h0 : seqs = []
+  · subst h0; simp [entryOf, rmPair, rmCell]
+  · by_cases h1 : seq ∈ seqs
+    · by_cases h2 : b ≤ pos ∧ pos < maxInt32
+      · simp [entryOf, rmPair, rmCell, rmEntry, h0, h1, h2, dropSeq]
+      · by_cases h3 : pos ≥ maxInt32
+        · simp [entryOf, rmPair, rmCell, rmEntry, h0, h1, h2, h3, hoff]
+        · simp [entryOf, rmPair, rmCell, rmEntry, h0, h1, h2, h3, hoff]
+    · simp [entryOf, rmPair, rmCell, rmEntry, h0, h1]
+
+theorem any_refuse_abs (seq : Nat) (b e : Int) (cells : List Cell) (rows : List Row)
+    (hlen : cells.length = rows.length) :
+    ((cells.zip rows).filterMap entryOf).any (mustRefuse seq b e) = cells.any (refuseCell seq b e) := by
+  induction cells generalizing rows with
+  | nil => simp
+  | cons c cs ih =>
+    cases rows with
+    | nil => simp at hlen
+    | cons r rs =>
+      simp only [List.length_cons, Nat.add_right_cancel_iff] at hlen
+      by_cases h0 : c.seqs = []
+      · simp [List.zip_cons_cons, List.filterMap_cons, entryOf, h0, ih rs hlen, refuseCell]
+      · simp [List.zip_cons_cons, List.filterMap_cons, entryOf, h0, ih rs hlen, refuseCell, mustRefuse]
+
+/-! ### ranges -/
+
+theorem Range.add_min_le (r : Range) (i : Nat) : (r.add i).min ≤ r.min ∧ (r.add i).min ≤ i := by
+  unfold Range.add; simp only; split <;> omega
+
+theorem Range.add_max_ge (r : Range) (i : Nat) : r.max ≤ (r.add i).max ∧ i ≤ (r.add i).max := by
+  unfold Range.add; simp only; split <;> omega
+
+theorem Range.add_max_le (r : Range) (i : Nat) : (r.add i).max ≤ Nat.max r.max i := by
+  unfold Range.add; simp only; split <;> simp [Nat.max_def] <;> omega
+
+theorem rangeFrom_mono (p : Nat → Cell → Bool) (cells : List Cell) (i : Nat) (r : Range) :
+    (rangeFrom p i cells r).min ≤ r.min ∧ r.max ≤ (rangeFrom p i cells r).max := by
+  induction cells generalizing i r with
+  | nil => simp [rangeFrom]
+  | cons c cs ih =>
+    unfold rangeFrom
+    have := ih (i + 1) (if p i c then r.add i else r)
+    split at this <;> rename_i hp
+    · simp only [hp, if_true]
+      have h1 := Range.add_min_le r i
+      have h2 := Range.add_max_ge r i
+      omega
+    · simp only [hp]
+      exact this
+
+/-- every index whose cell satisfies `p` lies inside the computed range -/
+theorem rangeFrom_covers (p : Nat → Cell → Bool) (cells : List Cell) (i : Nat) (r : Range)
+    (k : Nat) (hk : k < cells.length) (hp : p (i + k) cells[k] = true) :
+    (rangeFrom p i cells r).min ≤ i + k ∧ i + k ≤ (rangeFrom p i cells r).max := by
+  induction cells generalizing i r k with
+  | nil => simp at hk
+  | cons c cs ih =>
+    unfold rangeFrom
+    cases k with
+    | zero =>
+      simp only [List.getElem_cons_zero, Nat.add_zero] at hp
+      simp only [hp, if_true, Nat.add_zero]
+      have := rangeFrom_mono p cs (i + 1) (r.add i)
+      have h1 := Range.add_min_le r i
+      have h2 := Range.add_max_ge r i
+      omega
+    | succ k =>
+      simp only [List.getElem_cons_succ] at hp
+      simp only [List.length_cons, Nat.add_lt_add_iff_right] at hk
+      have := ih (i + 1) (if p i c then r.add i else r) k hk (by rw [show i + 1 + k = i + (k + 1) by omega]; exact hp)
+      omega
+
+/-- the computed maximum is an index of the list (or the initial one) -/
+theorem rangeFrom_max_lt (p : Nat → Cell → Bool) (cells : List Cell) (i : Nat) (r : Range) (n : Nat)
+    (hn : i + cells.length ≤ n) (hr : r.max < n ∨ r.max = 0) :
+    (rangeFrom p i cells r).max < n ∨ (rangeFrom p i cells r).max = 0 := by
+  induction cells generalizing i r with
+  | nil => simpa [rangeFrom] using hr
+  | cons c cs ih =>
+    unfold rangeFrom
+    simp only [List.length_cons] at hn
+    apply ih (i + 1) _ (by omega)
+    split
+    · have := Range.add_max_le r i
+      simp only [Nat.max_def] at this
+      split at this <;> omega
+    · exact hr
+
+theorem rangeOf_covers (p : Nat → Cell → Bool) (cells : List Cell) (k : Nat) (hk : k < cells.length)
+    (hp : p k cells[k] = true) : (rangeOf p cells).min ≤ k ∧ k ≤ (rangeOf p cells).max := by
+  have := rangeFrom_covers p cells 0 Range.new k hk (by simpa using hp)
+  simpa [rangeOf] using this
+
+theorem rangeOf_max_lt (p : Nat → Cell → Bool) (cells : List Cell) :
+    (rangeOf p cells).max < cells.length ∨ (rangeOf p cells).max = 0 := by
+  exact rangeFrom_max_lt p cells 0 Range.new cells.length (by omega) (Or.inr rfl)
+
+theorem rangeOf_new (p : Nat → Cell → Bool) (cells : List Cell) (hsz : cells.length ≤ maxInt)
+    (h : rangeOf p cells = Range.new) : ∀ k (hk : k < cells.length), p k cells[k] = false := by
+  intro k hk
+  cases hp : p k cells[k] with
+  | false => rfl
+  | true =>
+    have := rangeOf_covers p cells k hk hp
+    rw [h] at this
+    simp only [Range.new] at this
+    omega
 
 end OllamaVerif.Causal
